@@ -20,7 +20,8 @@
 (***************************************************************************)
 EXTENDS Naturals, Sequences, FiniteSets, TLC, Json
 
-CONSTANTS Mode,        \* "blank" | "direct"
+CONSTANTS Mode,        \* "blank" | "direct" | "tblank" (a Blank that is itself wrapped in a transforming source with mangler list Outer)
+          Outer,       \* mangler list around the Blank in "tblank" mode ("none" otherwise)
           Wraps,       \* mangler lists an inner source may be wrapped in: subset of {"none","set","tag","alias","aliasset"}
           AVals,       \* values for the scalar leaf (0 = unset)
           SVals,       \* values for the set leaf: subset of {"unset","empty","p","pq"}
@@ -38,6 +39,7 @@ VARIABLES inner,    \* [kind, wrap, canReport]
 
 vars == <<inner, slot, alive, errs, broken, hist>>
 
+IsBlank == Mode \in {"blank", "tblank"}
 Unset == [a |-> 0, s |-> "unset"]
 Vals == {[a |-> a, s |-> s] : a \in AVals, s \in SVals}
 Vias == {"primary", "alias"}
@@ -49,7 +51,7 @@ Rec(op, v, w, via, flag, err, took) ==
    err |-> err, took |-> took, ovl |-> FALSE, slota |-> slot'.a, slots |-> slot'.s, alive |-> alive', errs |-> errs', broken |-> broken']
 
 Init ==
-  /\ inner = IF Mode = "blank" THEN NoInner ELSE [kind |-> "watcher", wrap |-> CHOOSE w \in Wraps : TRUE, canReport |-> TRUE]
+  /\ inner = IF IsBlank THEN NoInner ELSE [kind |-> "watcher", wrap |-> CHOOSE w \in Wraps : TRUE, canReport |-> TRUE]
   /\ slot = Unset /\ alive = TRUE /\ errs = 0 /\ broken = FALSE /\ hist = <<>>
 
 \* "direct" mode: the wrap of the configured source is the first history entry
@@ -59,9 +61,9 @@ Configure(w, v) ==
   /\ slot' = v /\ UNCHANGED <<alive, errs, broken>>
   /\ hist' = <<Rec("configure", v, w, "primary", FALSE, FALSE, TRUE)>>
 
-Started == Mode = "blank" \/ hist # <<>>
+Started == IsBlank \/ hist # <<>>
 
-UsesAlias(w) == w \in {"alias", "aliasset"}
+UsesAlias(w) == w \in {"alias", "aliasset"} \/ Outer \in {"alias", "aliasset"}
 ViaOK(w, v, via) == via = "primary" \/ (UsesAlias(w) /\ v.a # 0)
 
 PrevSet == hist # <<>> /\ hist[Len(hist)].op \in {"setstatic", "setwatcher"} /\ ~hist[Len(hist)].ovl
@@ -69,7 +71,7 @@ OvlOK(o) == o => (Overlap /\ PrevSet)
 Ovl(r, o) == [r EXCEPT !.ovl = o]
 
 SetStatic(v, w, via, o) ==          \* Blank.SetSource(non-watching source)
-  /\ Mode = "blank" /\ ViaOK(w, v, via) /\ OvlOK(o)
+  /\ IsBlank /\ ViaOK(w, v, via) /\ OvlOK(o)
   /\ UNCHANGED <<alive, errs, broken>>
   /\ IF inner.kind = "watcher" /\ ~BUG_ReplaceWatcher
      THEN /\ UNCHANGED <<inner, slot>>
@@ -83,12 +85,12 @@ SetStatic(v, w, via, o) ==          \* Blank.SetSource(non-watching source)
           /\ hist' = Append(hist, Ovl(Rec("setstatic", v, w, via, FALSE, FALSE, TRUE), o))
 
 SetFailing ==                    \* the new source's Value fails: error, nothing changes
-  /\ Mode = "blank"
+  /\ IsBlank
   /\ UNCHANGED <<inner, slot, alive, errs, broken>>
   /\ hist' = Append(hist, Rec("setfailing", Unset, "none", "primary", FALSE, TRUE, FALSE))
 
 SetWatcher(v, w, via, watchOK, o) ==   \* Blank.SetSource(watching source)
-  /\ Mode = "blank" /\ ViaOK(w, v, via) /\ OvlOK(o)
+  /\ IsBlank /\ ViaOK(w, v, via) /\ OvlOK(o)
   /\ UNCHANGED <<alive, errs, broken>>
   /\ IF inner.kind = "watcher" /\ ~BUG_ReplaceWatcher
      THEN /\ UNCHANGED <<inner, slot>>
@@ -123,7 +125,7 @@ InnerDone ==                     \* the watching inner source is finished: the m
   /\ hist' = Append(hist, Rec("innerdone", Unset, inner.wrap, "primary", FALSE, FALSE, FALSE))
 
 BlankDone ==                     \* Blank.Done: forwarded only while the Blank still owns the slot
-  /\ Mode = "blank"
+  /\ IsBlank
   /\ alive' = IF inner.kind = "watcher" THEN alive ELSE FALSE
   /\ UNCHANGED <<inner, slot, errs, broken>>
   /\ hist' = Append(hist, Rec("blankdone", Unset, "none", "primary", FALSE, FALSE, FALSE))
